@@ -17,7 +17,7 @@ META = {
         "boolean truth tables, float fn items applied as op(top, second)); (R01.4) sign-safe parity; (R01.5) execution order: run_to_completion pops the exec top and performs it, a block "
         "is unfolded by push_many(iter().cloned()) (first element on top by C04 R04.4); (R01.6) input variables perform a clone of the instruction bound to that name; (R01.7) printing writes "
         "the popped value / the constant with write!/writeln!. NOT decided: numeric results beyond primitive identity, float corner values (OrderedFloat), Display formatting, whole-program "
-        "composition (induction over per-step rows, argued)."),
+        "composition (induction over per-step rows, argued). (R01.9) the order in which the stack hands out operands (top = last element, top2/top3/pop2/pop3 top first, bulk pushes first supplied on top) - C04's R04.4 re-evaluated here because 'first operand = top' rests on it; R01.8 also pins the literal/print/program constructors (PushValue::new, PrintString::new, PushProgram::from) and the stdout_string accessor."),
     "rules": {
         "R01.8": "construction wiring: every From<T> into an instruction enum wraps T in the variant whose payload type is T; the const constructors build the variant they are named after",
         "R01.9": "operand order of the stack reads/removals the instructions are built on (top = last element, top2/top3/pop2/pop3 top first, push_many first supplied on top): C04's R04.4 re-evaluated",
